@@ -308,23 +308,34 @@ impl<'a> P<'a> {
             return Ok(PV::Bool(false));
         }
         if self.eat("[syntax node ") {
+            // the kind may contain spaces and brackets ("is not", "(", "]"): take the shortest
+            // kind that is followed by " (row, column)]"
             let st = self.i;
-            while self.i < self.s.len() && self.s[self.i] != ' ' {
-                self.i += 1;
+            let mut k = st;
+            while k < self.s.len() {
+                if self.s[k] == ' ' && self.s.get(k + 1) == Some(&'(') {
+                    let save = self.i;
+                    self.i = k + 2;
+                    let ok = (|| -> Result<(usize, usize), String> {
+                        let r = self.number()? as usize;
+                        if !self.eat(", ") {
+                            return Err("no comma".into());
+                        }
+                        let c = self.number()? as usize;
+                        if !self.eat(")]") {
+                            return Err("no end".into());
+                        }
+                        Ok((r, c))
+                    })();
+                    if let Ok((r, c)) = ok {
+                        let kind: String = self.s[st..k].iter().collect();
+                        return Ok(PV::Syn(kind, r, c));
+                    }
+                    self.i = save;
+                }
+                k += 1;
             }
-            let kind: String = self.s[st..self.i].iter().collect();
-            if !self.eat(" (") {
-                return Err("bad syntax node".into());
-            }
-            let r = self.number()? as usize;
-            if !self.eat(", ") {
-                return Err("bad syntax node".into());
-            }
-            let c = self.number()? as usize;
-            if !self.eat(")]") {
-                return Err("bad syntax node".into());
-            }
-            return Ok(PV::Syn(kind, r, c));
+            return Err("bad syntax node".into());
         }
         if self.eat("[graph node ") {
             let n = self.number()? as usize;
